@@ -7,6 +7,7 @@ import (
 	"bytes"
 	"encoding/binary"
 	"fmt"
+	"sort"
 	"strings"
 	"sync"
 
@@ -52,6 +53,11 @@ type Session struct {
 	curLeft   int // unread bytes of it
 	writerErr bool
 
+	Reach     map[uint64]string // committed txid -> reach set
+	Reach0    string
+	StartTxid uint64 // header active when tracing starts (after the first Open)
+	StartSlot int
+
 	mu       sync.Mutex
 	Trace    bytes.Buffer
 	Step     int
@@ -76,6 +82,112 @@ func (s *Session) fail(prop, kind, format string, a ...interface{}) {
 // enumeration of C06): every queue call is bracketed by two such marks.
 func (s *Session) markState() {
 	s.Disk.Mark(fmt.Sprintf("pq %d %d", s.Acked, s.Flushed))
+	s.recordReach()
+}
+
+// recordReach stores, per committed transaction id, the physical pages (with content hashes)
+// the committed state depends on: used by the Lean crash acceptor (C06 via C01).
+func (s *Session) recordReach() {
+	if s.F == nil {
+		return
+	}
+	defer func() { recover() }()
+	fs := s.F.VerifSnapshot()
+	txid := fs.Meta[fs.MetaActive].Txid
+	if s.Reach == nil {
+		s.Reach = map[uint64]string{}
+	}
+	if _, ok := s.Reach[txid]; ok {
+		return
+	}
+	img := s.Disk.Contents()
+	ps := uint64(s.Cfg.PageSize)
+	phys := map[uint64]uint64{}
+	for _, e := range fs.Mapping {
+		phys[e[0]] = e[1]
+	}
+	pages := map[uint64]bool{}
+	for _, id := range engine.LiveFromSnap(fs) {
+		if w, ok := phys[id]; ok {
+			pages[w] = true
+		} else {
+			pages[id] = true
+		}
+	}
+	for _, id := range engine.RegionIDs(fs.FreelistPages) {
+		pages[id] = true
+	}
+	for _, id := range engine.RegionIDs(fs.WalPages) {
+		pages[id] = true
+	}
+	ids := make([]uint64, 0, len(pages))
+	for id := range pages {
+		ids = append(ids, id)
+	}
+	sort.Slice(ids, func(i, j int) bool { return ids[i] < ids[j] })
+	var sb strings.Builder
+	for i, id := range ids {
+		if i > 0 {
+			sb.WriteByte(',')
+		}
+		buf := make([]byte, ps)
+		if id*ps < uint64(len(img)) {
+			copy(buf, img[id*ps:])
+		}
+		fmt.Fprintf(&sb, "%d:%d", id, engine.PageHash(buf))
+	}
+	if len(ids) == 0 {
+		sb.WriteString("-")
+	}
+	s.Reach[txid] = sb.String()
+	if s.StartTxid == 0 {
+		s.StartTxid, s.StartSlot, s.Reach0 = txid, fs.MetaActive, sb.String()
+	}
+}
+
+// CrashTrace renders the vfs operation log for the Lean crash acceptor.
+func (s *Session) CrashTrace() string {
+	var sb strings.Builder
+	ps := int64(s.Cfg.PageSize)
+	fmt.Fprintf(&sb, "start %d %d\ninit %s\n", s.StartSlot, s.StartTxid, s.Reach0)
+	txids := make([]uint64, 0, len(s.Reach))
+	for t := range s.Reach {
+		txids = append(txids, t)
+	}
+	sort.Slice(txids, func(i, j int) bool { return txids[i] < txids[j] })
+	for _, t := range txids {
+		fmt.Fprintf(&sb, "state %d %s\n", t, s.Reach[t])
+	}
+	started := false
+	for _, op := range s.Disk.LogCopy() {
+		switch op.Kind {
+		case simdisk.OpMark:
+			if strings.HasPrefix(op.Label, "pq ") {
+				started = true // the file exists once the first queue call returned
+			}
+		case simdisk.OpSync:
+			if started {
+				sb.WriteString("s\n")
+			}
+		case simdisk.OpTruncate:
+			if started {
+				fmt.Fprintf(&sb, "t %d\n", (op.Off+ps-1)/ps)
+			}
+		case simdisk.OpWrite:
+			if !started {
+				continue
+			}
+			if len(op.Data) == 84 && (op.Off == 0 || op.Off == ps) {
+				m := txfile.VerifDecodeMeta(op.Data)
+				fmt.Fprintf(&sb, "h %d %d %d\n", op.Off/ps, m.Txid, m.Txid)
+				continue
+			}
+			buf := make([]byte, ps)
+			copy(buf, op.Data)
+			fmt.Fprintf(&sb, "w %d %d\n", op.Off/ps, engine.PageHash(buf))
+		}
+	}
+	return sb.String()
 }
 
 func (s *Session) emit(format string, a ...interface{}) {
@@ -484,6 +596,16 @@ func (s *Session) Counters() {
 		if r3 == "ok" && int(av) != s.Flushed-s.Consumed {
 			s.fail("C17", "available", "Reader.Available=%d, expected flushed(%d)-consumed(%d)=%d", av, s.Flushed, s.Consumed, s.Flushed-s.Consumed)
 		}
+	}
+	// header ids for the Lean header model (C17)
+	if hd, tl, rd, _, okh := s.rootHeader(); okh {
+		b := func(x uint64) int {
+			if x != 0 {
+				return 1
+			}
+			return 0
+		}
+		s.emit("hdr h=%d:%d r=%d:%d t=%d:%d f=%d a=%d p=%d act=%d", hd[1], b(hd[0]), rd[1], b(rd[0]), tl[1], b(tl[0]), s.Flushed, s.Acked, pend, act)
 	}
 	// space: pages held by the queue
 	_, _, _, inuse, ok := s.rootHeader()
